@@ -5,7 +5,33 @@ The generators remain the main source of cases; these make the detection of know
 import json, os, re, glob, sys
 V = os.path.dirname(os.path.dirname(os.path.abspath(__file__)))
 ENGINE = {"C01", "C02", "C03", "C04", "C05", "C09", "C10", "C11", "C13"}
-HEREDOC = re.compile(r"cat\s*>+\s*(\S+)\s*<<-?\s*'?\"?(\w+)'?\"?\s*\n(.*?)\n\2\s*$", re.S | re.M)
+_HEREDOC = re.compile(r"cat\s*>+\s*(\S+)\s*<<-?\s*'?\"?(\w+)'?\"?\s*\n(.*?)\n\2\s*$", re.S | re.M)
+PRINTF = re.compile(r"""printf\s+'((?:[^'\\]|\\.)*)'\s*>+\s*"?([^\s"]+)"?""")
+
+class _M:
+    def __init__(self, path, body):
+        self._p, self._b = path, body
+    def group(self, k):
+        return {1: self._p, 2: "EOF", 3: self._b}[k]
+
+def demo_files(text):
+    """(path, content) of every file a demo.sh writes with a here-document or a plain printf"""
+    res = [_M(m.group(1), m.group(3)) for m in _HEREDOC.finditer(text)]
+    for m in PRINTF.finditer(text):
+        fmt_, path = m.group(1), m.group(2)
+        if "%" in fmt_.replace("%%", ""):
+            continue
+        body = fmt_.replace("%%", "%").replace("\\n", "\n").replace("\\t", "\t").replace("\\\\", "\\")
+        if body.endswith("\n"):
+            body = body[:-1]
+        res.append(_M(path, body))
+    return res
+
+class _H:
+    def finditer(self, text):
+        return demo_files(text)
+
+HEREDOC = _H()
 out = {}
 for d in sorted(glob.glob(os.path.join(V, "seeded", "C*"))):
     name = os.path.basename(d)
@@ -62,6 +88,35 @@ for d in sorted(glob.glob(os.path.join(V, "seeded", "C*"))):
 if chains:
     json.dump(chains, open(os.path.join(V, "corpus", "C09", "seeded_chains.json"), "w"), indent=1)
     print("C09 chains", len(chains))
+
+# CLI-level properties: one scenario per demonstration (all its Go files together, as the demonstration runs them),
+# with each of its patches in turn
+CLI = {"C06", "C07", "C12", "C14", "C16", "C18"}
+scen = {}
+for d in sorted(glob.glob(os.path.join(V, "seeded", "C*"))):
+    meta = json.load(open(os.path.join(d, "meta.json")))
+    demo = os.path.join(d, "demo.sh")
+    if meta["property"] not in CLI or not os.path.exists(demo):
+        continue
+    text = open(demo).read()
+    patches, files = [], {}
+    for m in HEREDOC.finditer(text):
+        path, body = m.group(1).strip('"'), m.group(3) + "\n"
+        base = os.path.basename(path)
+        if base.endswith(".patch"):
+            patches.append(body)
+        elif base.endswith(".go") and not re.match(r"(want|expect|exp_|golden|ref)", base):
+            rel = re.sub(r"^\$\{?\w+\}?/", "", path)          # "$T/sub/a.go" -> "sub/a.go"
+            rel = re.sub(r"[^A-Za-z0-9_./-]", "_", rel).lstrip("/")
+            if ".." not in rel:
+                files[rel or base] = body
+    for pi, ptxt in enumerate(patches):
+        if files:
+            scen.setdefault(meta["property"], []).append({"id": f"seed/{os.path.basename(d)}/{pi}", "patches": [ptxt], "files": files})
+for pid, ss in scen.items():
+    os.makedirs(os.path.join(V, "corpus", pid), exist_ok=True)
+    json.dump(ss, open(os.path.join(V, "corpus", pid, "seeded_scenarios.json"), "w"), indent=1)
+    print(pid, "scenarios", len(ss))
 
 for pid, cases in out.items():
     os.makedirs(os.path.join(V, "corpus", pid), exist_ok=True)
